@@ -122,9 +122,12 @@ def run(ck, ix, tier):
             p = undominated(cfg, [hn], conv)
             ck.check(p is None, "G-PROV", "PlainQuantity.__hash__|magnitude-converted-before-hashing", fi.loc(cfg.nodes[hn].ast), "hash only after to_base_units",
                      "a hash is computed on a path that skips to_base_units (equal dimensionless quantities in scaled units would hash differently)", witness(cfg, p))
-        for tst in [n for n in cfg.nodes if n.kind == "test" and "dimensionless" in norm(n.ast)]:
-            ck.check(norm(tst.ast) == f"{b}.dimensionless", "G-PROV", "PlainQuantity.__hash__|dimensionless-shortcut-on-base-form", fi.loc(tst.ast), "dimensionless shortcut tests the base form",
-                     f"`{norm(tst.ast)}`: the dimensionless shortcut must test the converted object")
+        # the branch that hashes the bare magnitude (so that q == 3 implies hash(q) == hash(3)) must be taken exactly when
+        # __eq__ compares with bare numbers, i.e. for every *dimensionless* quantity (radian, count, ... included), and
+        # every other quantity must hash what __eq__ compares (dimensionality, not the units)
+        for tst in [n for n in cfg.nodes if n.kind == "test"]:
+            ck.check(norm(tst.ast) in (f"{b}.dimensionless", "self.dimensionless"), "G-PROV", "PlainQuantity.__hash__|dimensionless-shortcut-on-base-form", fi.loc(tst.ast), "bare-magnitude hash for every dimensionless quantity",
+                     f"`{norm(tst.ast)}` selects the hash granularity: the bare-magnitude hash must be taken exactly for dimensionless quantities (the predicate __eq__ uses for bare numbers); 1 radian == 1 but would hash differently")
     fh = ix.func(PU, "PlainUnit.__hash__")
     ck.check("self._units.__hash__()" in norm(fh.node) or "hash(self._units)" in norm(fh.node), "G-PROV", "PlainUnit.__hash__|container-hash", fh.loc(), "unit hash = container hash", "PlainUnit.__hash__ is no longer the container hash")
 
